@@ -308,6 +308,19 @@ impl<'a> VisitMut for Rules<'a> {
         }
     }
 
+    fn visit_arm_mut(&mut self, a: &mut syn::Arm) {
+        // R40 (cont.): a match arm whose body is a bare `continue` / `break` becomes a block `{ continue; }` so that a proof hint can be
+        // attached in front of it
+        if self.ctx.on("R40") {
+            if matches!(&*a.body, syn::Expr::Continue(_) | syn::Expr::Break(_)) {
+                let b = (*a.body).clone();
+                a.body = Box::new(syn::parse_quote!({ #b; }));
+                self.ctx.used("R40");
+            }
+        }
+        syn::visit_mut::visit_arm_mut(self, a);
+    }
+
     fn visit_block_mut(&mut self, b: &mut syn::Block) {
         if self.ctx.on("R34") {
             // R34 (lazy iterator chain, by the std definitions of Iterator::map / next / fold):
@@ -706,6 +719,23 @@ impl<'a> VisitMut for Rules<'a> {
                             }
                         }
                     }
+                }
+            }
+        }
+        // R40: `while let P = E { B }` -> `loop { let P = E else { break; }; B }` (the definition of while-let; the scrutinee is evaluated
+        // once per iteration at the top of the body, where a proof can see its postcondition)
+        if self.ctx.on("R40") {
+            if let syn::Expr::While(w) = e {
+                if let syn::Expr::Let(l) = &*w.cond {
+                    let pat = (*l.pat).clone();
+                    let scrut = (*l.expr).clone();
+                    let stmts = &w.body.stmts;
+                    let label = w.label.clone();
+                    *e = syn::parse_quote!(#label loop {
+                        let #pat = #scrut else { break; };
+                        #(#stmts)*
+                    });
+                    self.ctx.used("R40");
                 }
             }
         }
